@@ -187,7 +187,7 @@ def get_axis_positions_and_coords(ds, axis_name):
             cell_dim = cell_dim.replace(":", " ").split()
 
             # Find the face dimension that matches the node dimension
-            dim = [s[0] for s in enumerate(cell_dim) if node_dim_name in s[1]]
+            dim = [s[0] for s in enumerate(cell_dim) if node_dim_name == s[1]]
             if len(dim) != 1:
                 raise IndexError(
                     f"Found {len(dim)} face_dimensions corresponding to node_dimension '{node_dim_name}'. Expecting 1."
@@ -202,7 +202,7 @@ def get_axis_positions_and_coords(ds, axis_name):
             cell_dim = cell_dim.replace(":", " ").split()
 
             # Find the face dimension that matches the node dimension
-            dim = [s[0] for s in enumerate(cell_dim) if node_dim_name in s[1]]
+            dim = [s[0] for s in enumerate(cell_dim) if node_dim_name == s[1]]
             if len(dim) != 1:
                 raise IndexError(
                     f"Found {len(dim)} face_dimensions corresponding to node_dimension '{node_dim_name}'. Expecting 1."
